@@ -159,6 +159,13 @@ func (s *set) AddRecordWithExtraElements(elements []InfoElementWithValue, numExt
 func (s *set) AddRecordV2(elements []InfoElementWithValue, templateID uint16) error {
 	var record Record
 	if s.setType == Data {
+		if !s.isDecoding {
+			for idx := range elements {
+				if err := validateValueForEncoding(elements[idx]); err != nil {
+					return err
+				}
+			}
+		}
 		record = NewDataRecordFromElements(templateID, elements, s.isDecoding)
 	} else if s.setType == Template {
 		record = NewTemplateRecordFromElements(templateID, elements, s.isDecoding)
